@@ -1,9 +1,9 @@
 #!/bin/sh
-# tools/verify_seeded.sh <ID> -- confirm each sub-agent change in its worktree (tests pass, demo fails with / passes without),
-# then keep it under /verif/seeded/<ID>-<n>/ and run the property's quick check against it.
-ID=$1; WT=/tmp/wt-$ID
+# tools/verify_seeded.sh <ID> [worktree] [number offset] -- confirm each sub-agent change in its worktree (tests pass, demo
+# fails with / passes without), then keep it under /verif/seeded/<ID>-<n>/.
+ID=$1; WT=${2:-/tmp/wt-$ID}; OFF=${3:-0}
 for d in $WT/seeded_out/change*; do
-  n=$(basename $d | sed 's/change//')
+  n=$(( $(basename $d | sed 's/change//') + OFF ))
   echo "=== $ID change $n: $(/venv/bin/python -c "import json;print(json.load(open('$d/meta.json')).get('title'))")"
   cd $WT && git checkout -q -- . && git apply $d/patch.diff || { echo "APPLY FAILED"; continue; }
   T=$(PYTHONPATH=$WT timeout 900 /venv/bin/python -m pytest -q -p no:cacheprovider tests 2>&1 | tail -1)
@@ -13,8 +13,15 @@ for d in $WT/seeded_out/change*; do
   echo "tests: $T | demo with change: exit $W | without: exit $WO"
   if [ $W -ne 0 ] && [ $WO -eq 0 ] && echo "$T" | grep -q "337 passed"; then
     mkdir -p /verif/seeded/$ID-$n && cp $d/patch.diff $d/demo.py $d/meta.json /verif/seeded/$ID-$n/
+    /venv/bin/python - /verif/seeded/$ID-$n/meta.json <<'PY'
+import json,sys
+m=json.load(open(sys.argv[1]))
+m['confirmed']={"by":"tools/verify_seeded.sh in the sub-agent's scratch worktree (since removed)","ran":["git apply patch.diff","PYTHONPATH=<worktree> /venv/bin/python -m pytest -q -p no:cacheprovider tests  -> 337 passed with the change applied","demo.py with the change applied -> non-zero exit","git checkout -- . ; demo.py on the unchanged tree -> exit 0"]}
+json.dump(m,open(sys.argv[1],'w'),indent=1)
+PY
     echo "CONFIRMED -> /verif/seeded/$ID-$n"
   else
     echo "NOT CONFIRMED"; tail -5 /tmp/demo_with.txt; tail -3 /tmp/demo_without.txt
   fi
 done
+rm -f /tmp/demo_with.txt /tmp/demo_without.txt
